@@ -118,12 +118,20 @@ def zadd(g, conn):
             r.shuffle(opts)
     incr = any(bytes.fromhex(o).upper() == b"INCR" for o in opts)
     pairs = []
-    for _ in range(c([1, 1, 2, 2, 3, 4])):
-        if inf_key and not incr and r.random() < 0.6:
+    npairs = c([1, 1, 2, 2, 3, 4])
+    # (since the repair of A-48 / A-52 every pair counts under every option, and nothing is written when one score is bad)
+    dup = g.member() if npairs > 1 and r.random() < 0.3 else None        # one member several times in one command
+    bad_at = r.randrange(1, npairs) if npairs > 1 and r.random() < 0.12 else -1   # a bad score in a LATER pair
+    for i in range(npairs):
+        if i == bad_at:
+            sc = hx(c(BADFLOATS))
+        elif inf_key and not incr and r.random() < 0.6:
             sc = hx(c(INFS))
         else:
-            sc = pick(g, SCORES, BADFLOATS, 0.92)
-        pairs += [sc, g.member()]
+            sc = pick(g, SCORES, BADFLOATS, 0.95)
+        pairs += [sc, dup if dup is not None and r.random() < 0.7 else g.member()]
+    if r.random() < 0.04:
+        pairs = pairs[:-1]                                               # a dangling score
     x = r.random()
     if x < 0.85:
         parts = ["ZADD", key] + opts + pairs
